@@ -122,6 +122,13 @@ def run(check):
             for f in files:
                 sc.write("ws/" + f["rel"], render_file(f["file"]))
             n = len(files)
+            if t % 4 == 1:
+                # one more file, next to a random one, holds an item no back end can write: the run must fail with the same
+                # diagnostic and leave the same (no) output whichever result reaches the collector first or last
+                sc.write("ws/" + os.path.dirname(files[rng.randrange(n)]["rel"]) + "/%s_rejected.rs" % rng.choice(["aaa", "mmm", "zzz"]),
+                         "#[typeshare]\npub struct RejectedPair(pub String, pub u32);\n\n#[typeshare]\npub struct KeptNextToIt { pub a: u8 }\n")
+                n += 1
+                check.count("tree-with-rejected-item")
             if n <= max_exh:
                 orders = [",".join(map(str, p)) for p in itertools.permutations(range(n))]
             else:
@@ -133,7 +140,7 @@ def run(check):
             rc0 = None
             for env in envs:
                 r, outs = run_once(sc, lang, multi, env)
-                d = digest(outs) + "|%s" % r["rc"]
+                d = digest(outs) + "|%s|%s" % (r["rc"], "_rejected.rs" in r["err"])
                 check.saw((t, json.dumps(env, sort_keys=True)), nontrivial=n >= 2)
                 check.count("%s-%s" % (lang, "multi" if multi else "single"))
                 if first is None:
